@@ -1,0 +1,458 @@
+//! Verification hooks. Only compiled with `--cfg regress_verif`.
+//!
+//! Nothing here changes the behaviour of the crate: it only exposes internal
+//! state and functions to an external harness, in a canonical textual form.
+
+#[cfg(not(feature = "std"))]
+use alloc::{format, string::String, vec::Vec};
+
+use crate::api::Regex;
+use crate::bytesearch::{ByteBitmap, ByteSearcher, ByteSet};
+use crate::codepointset::{CodePointSet, Interval};
+use crate::insn::{CompiledRegex, Insn, StartPredicate};
+use crate::unicode;
+use crate::util;
+use core::fmt::Write;
+
+/// Step accounting (hook H1). One tick per interpreted instruction and per backtrack.
+#[cfg(feature = "std")]
+pub mod fuel {
+    use std::cell::Cell;
+    std::thread_local! {
+        static FUEL: Cell<u64> = const { Cell::new(u64::MAX) };
+        static STEPS: Cell<u64> = const { Cell::new(0) };
+        static PEAK: Cell<u64> = const { Cell::new(0) };
+        static EXHAUSTED: Cell<bool> = const { Cell::new(false) };
+    }
+
+    /// Reset the counters and set the fuel for this thread.
+    pub fn reset(fuel: u64) {
+        FUEL.with(|f| f.set(fuel));
+        STEPS.with(|f| f.set(0));
+        PEAK.with(|f| f.set(0));
+        EXHAUSTED.with(|f| f.set(false));
+    }
+
+    /// \return (steps, peak stack length, exhausted).
+    pub fn report() -> (u64, u64, bool) {
+        (
+            STEPS.with(|f| f.get()),
+            PEAK.with(|f| f.get()),
+            EXHAUSTED.with(|f| f.get()),
+        )
+    }
+
+    /// Consume one unit of fuel. \return false if exhausted.
+    #[inline]
+    pub fn tick(stack_len: usize) -> bool {
+        let left = FUEL.with(|f| f.get());
+        if left == 0 {
+            EXHAUSTED.with(|f| f.set(true));
+            return false;
+        }
+        if left != u64::MAX {
+            FUEL.with(|f| f.set(left - 1));
+        }
+        STEPS.with(|f| f.set(f.get() + 1));
+        let sl = stack_len as u64;
+        PEAK.with(|f| {
+            if f.get() < sl {
+                f.set(sl)
+            }
+        });
+        true
+    }
+}
+
+#[cfg(not(feature = "std"))]
+pub mod fuel {
+    pub fn reset(_fuel: u64) {}
+    pub fn report() -> (u64, u64, bool) {
+        (0, 0, false)
+    }
+    #[inline]
+    pub fn tick(_stack_len: usize) -> bool {
+        true
+    }
+}
+
+fn hexlist<T: Copy + Into<u64>>(out: &mut String, vals: &[T]) {
+    for (i, v) in vals.iter().enumerate() {
+        if i > 0 {
+            out.push(' ');
+        }
+        let _ = write!(out, "{:x}", (*v).into());
+    }
+}
+
+fn intervals(out: &mut String, ivs: &[Interval]) {
+    if ivs.is_empty() {
+        out.push('-');
+    }
+    for (i, iv) in ivs.iter().enumerate() {
+        if i > 0 {
+            out.push(',');
+        }
+        let _ = write!(out, "{:x}-{:x}", iv.first, iv.last);
+    }
+}
+
+fn maxs(v: usize) -> String {
+    if v == usize::MAX {
+        "inf".into()
+    } else {
+        format!("{}", v)
+    }
+}
+
+fn bitmap_bytes<F: Fn(u8) -> bool>(out: &mut String, contains: F) {
+    let mut first = true;
+    for b in 0..=255u8 {
+        if contains(b) {
+            if !first {
+                out.push(' ');
+            }
+            first = false;
+            let _ = write!(out, "{:x}", b);
+        }
+    }
+    if first {
+        out.push('-');
+    }
+}
+
+fn dump_insn(out: &mut String, insn: &Insn) {
+    macro_rules! seq {
+        ($v:expr) => {{
+            out.push_str("byteseq ");
+            hexlist(out, &$v[..]);
+        }};
+    }
+    match insn {
+        Insn::Goal => out.push_str("goal"),
+        Insn::JustFail => out.push_str("fail"),
+        Insn::Char(c) => {
+            let _ = write!(out, "char {:x}", c);
+        }
+        Insn::CharSet(cs) => {
+            out.push_str("charset ");
+            hexlist(out, &cs[..]);
+        }
+        Insn::ByteSet2(b) => {
+            out.push_str("byteset ");
+            hexlist(out, &b.0[..]);
+        }
+        Insn::ByteSet3(b) => {
+            out.push_str("byteset ");
+            hexlist(out, &b.0[..]);
+        }
+        Insn::ByteSet4(b) => {
+            out.push_str("byteset ");
+            hexlist(out, &b.0[..]);
+        }
+        Insn::ByteSeq1(v) => seq!(v),
+        Insn::ByteSeq2(v) => seq!(v),
+        Insn::ByteSeq3(v) => seq!(v),
+        Insn::ByteSeq4(v) => seq!(v),
+        Insn::ByteSeq5(v) => seq!(v),
+        Insn::ByteSeq6(v) => seq!(v),
+        Insn::ByteSeq7(v) => seq!(v),
+        Insn::ByteSeq8(v) => seq!(v),
+        Insn::ByteSeq9(v) => seq!(v),
+        Insn::ByteSeq10(v) => seq!(v),
+        Insn::ByteSeq11(v) => seq!(v),
+        Insn::ByteSeq12(v) => seq!(v),
+        Insn::ByteSeq13(v) => seq!(v),
+        Insn::ByteSeq14(v) => seq!(v),
+        Insn::ByteSeq15(v) => seq!(v),
+        Insn::ByteSeq16(v) => seq!(v),
+        Insn::AsciiBracket(bm) => {
+            out.push_str("asciibracket ");
+            bitmap_bytes(out, |b| bm.contains(b));
+        }
+        Insn::Bracket(idx) => {
+            let _ = write!(out, "bracket {}", idx);
+        }
+        Insn::MatchAny => out.push_str("any"),
+        Insn::MatchAnyExceptLineTerminator => out.push_str("anynl"),
+        Insn::StartOfLine { multiline } => {
+            let _ = write!(out, "sol {}", *multiline as u8);
+        }
+        Insn::EndOfLine { multiline } => {
+            let _ = write!(out, "eol {}", *multiline as u8);
+        }
+        Insn::WordBoundary { invert } => {
+            let _ = write!(out, "wb {}", *invert as u8);
+        }
+        Insn::WordBoundaryUnicodeICase { invert } => {
+            let _ = write!(out, "wbi {}", *invert as u8);
+        }
+        Insn::Jump { target } => {
+            let _ = write!(out, "jump {}", target);
+        }
+        Insn::Alt { secondary } => {
+            let _ = write!(out, "alt {}", secondary);
+        }
+        Insn::BeginCaptureGroup(g) => {
+            let _ = write!(out, "begin {}", g);
+        }
+        Insn::EndCaptureGroup(g) => {
+            let _ = write!(out, "end {}", g);
+        }
+        Insn::ResetCaptureGroup(g) => {
+            let _ = write!(out, "reset {}", g);
+        }
+        Insn::BackRef { group, icase } => {
+            let _ = write!(out, "backref {} {}", group, *icase as u8);
+        }
+        Insn::Lookahead {
+            negate,
+            start_group,
+            end_group,
+            continuation,
+        } => {
+            let _ = write!(
+                out,
+                "lookahead {} {} {} {}",
+                *negate as u8, start_group, end_group, continuation
+            );
+        }
+        Insn::Lookbehind {
+            negate,
+            start_group,
+            end_group,
+            continuation,
+        } => {
+            let _ = write!(
+                out,
+                "lookbehind {} {} {} {}",
+                *negate as u8, start_group, end_group, continuation
+            );
+        }
+        Insn::EnterLoop(f) => {
+            let _ = write!(
+                out,
+                "enterloop {} {} {} {} {}",
+                f.loop_id,
+                f.min_iters,
+                maxs(f.max_iters),
+                f.greedy as u8,
+                f.exit
+            );
+        }
+        Insn::LoopAgain { begin } => {
+            let _ = write!(out, "loopagain {}", begin);
+        }
+        Insn::Loop1CharBody {
+            min_iters,
+            max_iters,
+            greedy,
+        } => {
+            let _ = write!(
+                out,
+                "loop1 {} {} {}",
+                min_iters,
+                maxs(*max_iters),
+                *greedy as u8
+            );
+        }
+    }
+}
+
+fn dump_start_pred(out: &mut String, sp: &StartPredicate) {
+    match sp {
+        StartPredicate::Arbitrary => out.push_str("arbitrary"),
+        StartPredicate::StartAnchored => out.push_str("anchored"),
+        StartPredicate::ByteSet1(b) => {
+            out.push_str("set ");
+            hexlist(out, &b[..]);
+        }
+        StartPredicate::ByteSet2(b) => {
+            out.push_str("set ");
+            hexlist(out, &b[..]);
+        }
+        StartPredicate::ByteSet3(b) => {
+            out.push_str("set ");
+            hexlist(out, &b[..]);
+        }
+        StartPredicate::ByteSeq(f) => {
+            out.push_str("seq ");
+            hexlist(out, f.needle());
+        }
+        StartPredicate::ByteBracket(bm) => {
+            out.push_str("set ");
+            bitmap_bytes(out, |b| bm.contains(b));
+        }
+    }
+}
+
+/// Dump a compiled regex in canonical line-oriented text.
+pub fn dump_compiled(cr: &CompiledRegex) -> String {
+    let mut out = String::new();
+    let f = &cr.flags;
+    let _ = write!(
+        out,
+        "P {} {} {}{}{}{}{}{}- ",
+        cr.loops,
+        cr.groups,
+        if f.icase { "i" } else { "" },
+        if f.multiline { "m" } else { "" },
+        if f.dot_all { "s" } else { "" },
+        if f.unicode { "u" } else { "" },
+        if f.unicode_sets { "v" } else { "" },
+        if f.no_opt { "O" } else { "" },
+    );
+    if cr.group_names.is_empty() {
+        out.push('-');
+    }
+    for (i, name) in cr.group_names.iter().enumerate() {
+        if i > 0 {
+            out.push(',');
+        }
+        if name.is_empty() {
+            out.push('-');
+        }
+        for (j, c) in name.chars().enumerate() {
+            if j > 0 {
+                out.push('.');
+            }
+            let _ = write!(out, "{:x}", c as u32);
+        }
+    }
+    out.push('\n');
+    out.push_str("S ");
+    dump_start_pred(&mut out, &cr.start_pred);
+    out.push('\n');
+    for (idx, bc) in cr.brackets.iter().enumerate() {
+        let _ = write!(out, "B {} {} ", idx, bc.invert as u8);
+        intervals(&mut out, bc.cps.intervals());
+        out.push('\n');
+    }
+    for insn in cr.insns.iter() {
+        out.push_str("I ");
+        dump_insn(&mut out, insn);
+        out.push('\n');
+    }
+    out
+}
+
+/// Dump a Regex in canonical text.
+pub fn dump_program(re: &Regex) -> String {
+    dump_compiled(re.verif_cr())
+}
+
+/// Replace the start predicate with `Arbitrary`.
+pub fn set_start_pred_arbitrary(re: &mut Regex) {
+    re.verif_cr_mut().start_pred = StartPredicate::Arbitrary;
+}
+
+/// Parse (and optionally optimize) a pattern, returning the Debug text of the IR.
+pub fn dump_ir<I>(pattern: I, flags: crate::api::Flags) -> Result<String, crate::api::Error>
+where
+    I: Iterator<Item = u32> + Clone,
+{
+    let mut ire = crate::parse::try_parse(pattern, flags)?;
+    if !flags.no_opt {
+        crate::optimizer::optimize(&mut ire);
+    }
+    Ok(format!("{:?}", ire.node))
+}
+
+fn to_set(ivs: &[(u32, u32)]) -> CodePointSet {
+    CodePointSet::from_sorted_disjoint_intervals(
+        ivs.iter().map(|&(a, b)| Interval::new(a, b)).collect(),
+    )
+}
+
+fn to_ivs(ivs: &[(u32, u32)]) -> Vec<Interval> {
+    ivs.iter().map(|&(a, b)| Interval::new(a, b)).collect()
+}
+
+fn from_set(s: &CodePointSet) -> Vec<(u32, u32)> {
+    s.intervals().iter().map(|iv| (iv.first, iv.last)).collect()
+}
+
+/// CodePointSet::add
+pub fn cps_add(s: &[(u32, u32)], iv: (u32, u32)) -> Vec<(u32, u32)> {
+    let mut s = to_set(s);
+    s.add(Interval::new(iv.0, iv.1));
+    from_set(&s)
+}
+
+/// CodePointSet::add_set
+pub fn cps_add_set(s: &[(u32, u32)], t: &[(u32, u32)]) -> Vec<(u32, u32)> {
+    let mut s = to_set(s);
+    s.add_set(to_set(t));
+    from_set(&s)
+}
+
+/// CodePointSet::inverted
+pub fn cps_inverted(s: &[(u32, u32)]) -> Vec<(u32, u32)> {
+    from_set(&to_set(s).inverted())
+}
+
+/// CodePointSet::inverted_interval_count
+pub fn cps_inverted_interval_count(s: &[(u32, u32)]) -> usize {
+    to_set(s).inverted_interval_count()
+}
+
+/// CodePointSet::remove
+pub fn cps_remove(s: &[(u32, u32)], t: &[(u32, u32)]) -> Vec<(u32, u32)> {
+    let mut s = to_set(s);
+    s.remove(&to_ivs(t));
+    from_set(&s)
+}
+
+/// CodePointSet::intersect
+pub fn cps_intersect(s: &[(u32, u32)], t: &[(u32, u32)]) -> Vec<(u32, u32)> {
+    let mut s = to_set(s);
+    s.intersect(&to_ivs(t));
+    from_set(&s)
+}
+
+/// CodePointSet::contains
+pub fn cps_contains(s: &[(u32, u32)], cp: u32) -> bool {
+    to_set(s).contains(cp)
+}
+
+/// unicode::fold_code_point
+pub fn fold_code_point(cp: u32, unicode: bool) -> u32 {
+    unicode::fold_code_point(cp, unicode)
+}
+
+/// unicode::unfold_char
+pub fn unfold_char(cp: u32) -> Vec<u32> {
+    unicode::unfold_char(cp)
+}
+
+/// unicode::unfold_uppercase_char
+pub fn unfold_uppercase_char(cp: u32) -> Vec<u32> {
+    unicode::unfold_uppercase_char(cp)
+}
+
+/// unicode::add_icase_code_points
+pub fn add_icase_code_points(s: &[(u32, u32)]) -> Vec<(u32, u32)> {
+    from_set(&unicode::add_icase_code_points(to_set(s)))
+}
+
+/// unicodetables::nonascii_folds_to_ascii_word_char
+pub fn nonascii_folds_to_ascii_word_char(cp: u32) -> bool {
+    crate::unicodetables::nonascii_folds_to_ascii_word_char(cp)
+}
+
+/// util::utf8_first_byte
+pub fn utf8_first_byte(cp: u32) -> u8 {
+    util::utf8_first_byte(cp)
+}
+
+/// util::add_utf8_first_bytes_to_bitmap, as the list of bytes set.
+pub fn utf8_first_bytes(iv: (u32, u32)) -> Vec<u8> {
+    let mut bm = ByteBitmap::default();
+    util::add_utf8_first_bytes_to_bitmap(Interval::new(iv.0, iv.1), &mut bm);
+    (0..=255u8).filter(|b| bm.contains(*b)).collect()
+}
+
+/// ByteBitmap::find_in
+pub fn bitmap_find_in(set: &[u8], hay: &[u8]) -> Option<usize> {
+    ByteBitmap::new(set).find_in(hay)
+}
